@@ -11,6 +11,8 @@ REPO = os.environ.get('VERIF_REPO', '/repo')
 SPECS = os.path.join(VERIF, 'specs')
 HARNESS = os.path.join(VERIF, 'harness')
 NCPU = int(os.environ.get('VERIF_NCPU', '16'))
+# deep set expressions of the reference need a large Java thread stack (StackOverflowError otherwise)
+os.environ.setdefault('JAVA_TOOL_OPTIONS', '-Xss512m')
 
 GOENV = dict(os.environ, GOFLAGS='-mod=mod', GOPROXY='off', GOSUMDB='off', GOTOOLCHAIN='local')
 
@@ -154,6 +156,19 @@ def has_tlc_error(text):
     return any(ln.startswith('Error:') for ln in text.splitlines())
 
 
+def tlc_error_context(text):
+    """The lines around TLC's own error messages (the state dump that follows them is useless here)."""
+    lines = text.splitlines()
+    out = []
+    for i, ln in enumerate(lines):
+        if ln.startswith('Error:') or ln.startswith('Reason:') or 'Attempted to' in ln:
+            out += [l[:400] for l in lines[i:i + 12] if not l.startswith('"MISMATCH')]
+            out.append('...')
+        if len(out) > 80:
+            break
+    return '\n'.join(out) if out else text[-2000:]
+
+
 def tlc_ok(out, rc):
     return rc == 0 and ('Model checking completed. No error has been found.' in out or 'Finished in' in out) and 'Error:' not in out
 
@@ -220,7 +235,7 @@ def validate_traces(module, shards, timeout=3000, cfg=None, extra_env=None):
             for m in _COUNT.finditer(text):
                 pass
             if m is None or has_tlc_error(text) or rc != 0:
-                raise Infra('TLC failed on trace %s (rc=%s):\n%s' % (sh, rc, text[-3000:]))
+                raise Infra('TLC failed on trace %s (rc=%s):\n%s' % (sh, rc, tlc_error_context(text)))
             if int(m.group(2)) != nlines + 1:
                 raise Infra('trace %s not fully consumed: %s distinct states for %d lines\n%s' % (sh, m.group(2), nlines, text[-2000:]))
             total_states += int(m.group(2))
